@@ -122,3 +122,26 @@ CHECKS['C14'] = dict(
           '(deadlock / livelock of any client thread is the scheduler\'s verdict), Done is signalled, Close / Reset return, no sender or receiver thread is left; after Reset + Connect the client holds no pending / results / errors, the new stream carries exactly '
           'params, election id and the new operation, and the new exchange converges.'),
     note='Faults at the stream API (wire/), not inside HTTP/2. distinct_nontrivial = distinct (fault, outcome) observations.')
+ENGINES[1]['serves_properties'] += ['C15', 'C17', 'C18']
+ENGINES[1]['path'] += ', harness/reconc, harness/chkenum, harness/fluentenum'
+CHECKS['C15'] = dict(
+    category='model_checking', engine='input-enumeration', design_ref='DESIGN.md §3 C15',
+    technique='exhaustive enumeration of ordered pairs of reference-closed RIBs (generated catalogue) x target-only instance variants through the real reconciler and real AddEntry/DeleteEntry',
+    text=('The catalogue is every reference-closed choice of one payload variant (or absence) per key of a universe over two network instances (quick 108 states, thorough larger universe). For every ordered pair (intended, target) '
+          '(x three variants of a network instance only the target has) the real reconciler\'s operations are applied to the real target RIB in the documented order with reference checking on: each must succeed individually and at once, '
+          'the target must end up equal to the intended RIB in every network instance, equal RIBs yield no operations, ids are distinct and count up from the base.'),
+    note='Emission order inside a category is Go map order of the run (any order must work); local RIB targets only (the remote target is the same diff).')
+CHECKS['C17'] = dict(
+    category='model_checking', engine='input-enumeration', design_ref='DESIGN.md §3 C17',
+    technique='bounded-exhaustive enumeration of (result lists, wants, option subsets), Get responses x wants, client errors x wanted statuses x options on the real chk helpers with a fatal-capturing testing.TB, against a direct definition of "present"',
+    text=('HasResult over all result lists of length <= 2 (thorough 3) of an alphabet of operation results (5 entry kinds x ids x statuses x types x keys, election and parameter results, nil) x every want x the 4 option subsets; '
+          'HasResultsCache over want lists of length <= 2: never passes where HasResult fails, agrees when index keys are unique; GetResponseHasEntries over all 1024 subsets of 5 kinds x 2 instances x wants (present / other key / other instance); '
+          'HasNSendErrors / HasNRecvErrors / HasRecvClientErrorWithStatus over error shapes x counts x statuses x options. A helper must call Fatal iff the item is absent.'),
+    note='The reference is written from the helper documentation, not from its code. Pairs/triples of results are drawn from a reduced alphabet (stated in evidence).')
+CHECKS['C18'] = dict(
+    category='model_checking', engine='input-enumeration', design_ref='DESIGN.md §3 C18',
+    technique='bounded-exhaustive enumeration of fluent builder call sequences (length <= 4, thorough 5) and client call sequences (length <= 5, thorough 6) against a field-map model; queued messages compared byte-wise before/after later calls',
+    text=('Every sequence of With*/Add* calls with 2-value argument domains per entry kind: OpProto()/EntryProto() must equal the independently rendered field map after every call and messages obtained earlier must not change. '
+          'Every sequence of AddEntry / ReplaceEntry / DeleteEntry (one or two entries, entry with its own election id) / UpdateElectionID on a real fluent client in elected-primary and all-primary mode, observed through the real client\'s pending queue: '
+          'ids 1,2,3,..., requested operation type, stamp = id most recently set when queued unless the entry has its own, and no queued operation is altered by a later call.'),
+    note='No transport involved (operations are observed in the client before sending).')
